@@ -64,6 +64,10 @@ add("C07", "fault_enumeration",
     "For every state of the family and every op of the alphabet the invocations of each user callback kind (Hash, Eq, Clone of key/value/hasher, closures) are counted in a fault-free run, then a panic is injected at each individual invocation; after the caught panic: len()==iterated entries, every element live (canary+ledger), found by get, value legitimate, no duplicates, no double drop, losses within the documented allowance, move cursor agrees with the old table; then a tour of calls and the growth path across the next resize under full audits. Run by the chk and the AddressSanitizer binaries.",
     TB + " Leaks after a panic are not judged (the statement does not promise their absence).", "exhaustive fault enumeration: all crash points of all user callbacks of all ops over a family of reachable states, on the implementation", "DESIGN.md section 5 C07, engine E4")
 
+add("C15", "model_checking",
+    "griddle's and hashbrown's rayon modules run unmodified against a stand-in rayon crate whose bridge takes every split and fork-order decision from a script; all scripts with at most k splits are enumerated depth-first (stateless search) for every parallel map call at every family state and every parallel set call on every pair of set states; results are compared with the sequential API (each element exactly once, writes land exactly once, predicates agree). The same bodies are then run on the real rayon with pools of 1..16 threads as conformance evidence.",
+    TB + " The stand-in implements rayon's plumbing contract (Consumer/Folder/Reducer/UnindexedProducer, full()); real rayon may split less than the contract allows, never otherwise. Leaf folds over disjoint sub-ranges are assumed to commute (their disjointness is what is checked).", "stateless exhaustive exploration of split schedules (controlled scheduler stand-in for rayon) on the implementation", "DESIGN.md section 5 C15, engine E5", engine="gmc-par")
+
 import os
 claimed = sorted(CHECKS)
 ALL = [f"C{i:02d}" for i in range(1, 18)]
@@ -72,7 +76,8 @@ m = dict(version=1,
     setup_cmd="./check setup",
     hooks=dict(guard="cargo feature verif-hooks (off by default)", enable="the harness crates depend on griddle with features=[\"verif-hooks\"] via path=/repo; no RUSTFLAGS needed",
         baseline_off_cmd=BASELINE_OFF, source_commits=HOOK_COMMITS, add_only=True),
-    engines=[dict(name="gmc", path="/verif/mc", serves_properties=claimed, kind_free_text="hand-rolled explicit-state / stateless explorers over the real crate (E1 deviation-bounded growth path, E2 small-universe fixpoint, E3 pair worlds, E4 fault enumeration, E6 profile differential, E7 scale sweep); workers are isolated subprocesses")],
+    engines=[dict(name="gmc-par", path="/verif/mc-par", serves_properties=["C15"], kind_free_text="E5: depth-first enumeration of rayon split/fork scripts through the stand-in crate /verif/rayon-shim; /verif/mc-par-real links the real rayon for conformance runs"),
+        dict(name="gmc", path="/verif/mc", serves_properties=[c for c in claimed if c != "C15"], kind_free_text="hand-rolled explicit-state / stateless explorers over the real crate (E1 deviation-bounded growth path, E2 small-universe fixpoint, E3 pair worlds, E4 fault enumeration, E6 profile differential, E7 scale sweep); workers are isolated subprocesses")],
     checks=[CHECKS[k] for k in claimed],
     not_applicable=[dict(property_id=p, reason=NA.get(p, "check not built yet (work in progress; see DESIGN.md section 5)")) for p in ALL if p not in CHECKS],
     notes="Exit codes: 0 held / 1 violation / 2 machinery failure. Known findings: /verif/known_findings.json. Replays: /verif/replays/<id>-<n>.json.")
